@@ -1400,7 +1400,9 @@ fn main() {
 
     // ---- 5. merging: all sequences over <= 4 parts
     let extra = if th { 3 } else { 2 };
-    let shapes: Vec<Vec<usize>> = vec![vec![3], vec![2, 1], vec![1, 2], vec![24, 24, 16], vec![3, 3, 3], vec![1, 1, 1], vec![2, 1, 3, 1], vec![24, 24, 15, 1], vec![1, 1, 1, 1]];
+    let shapes: Vec<Vec<usize>> = vec![vec![3], vec![2, 1], vec![1, 2], vec![24, 24, 16], vec![3, 3, 3], vec![1, 1, 1], vec![2, 1, 3, 1], vec![24, 24, 15, 1], vec![1, 1, 1, 1],
+        // a part without clients (an empty `more` packet / an empty mask), the main part without clients
+        vec![2, 0, 1], vec![0, 3]];
     for ex in [false, true] {
         for sh in &shapes {
             let reps = if th { 2 } else { 1 };
@@ -1411,7 +1413,7 @@ fn main() {
             }
         }
     }
-    o.exhaustive("merge: every sequence (all permutations x all duplication patterns, covering or not) over the parts of 18 multi-part infos with 1..4 parts, up to length parts+2");
+    o.exhaustive("merge: every sequence (all permutations x all duplication patterns, covering or not) over the parts of 22 multi-part infos (quick; 44 thorough) with 1..4 parts, up to length parts+2 (thorough: +3)");
     // the documented test vector of the crate (3 parts), all sequences up to length 5
     {
         let p0 = b"86536\0version\0name\0map\x006277493\x00627272\0gametype\x0035247\x003\x006\x009\x0012\0\0player8\0clan8\x008\x0088\x001\0\0player3\0clan3\x003\x0033\x001\0\0player1\0clan1\x001\x0011\x000\0\0".to_vec();
@@ -1454,9 +1456,11 @@ fn main() {
     for _ in 0..(if th { 3000 } else { 500 }) {
         let np = 2 + r.below(4) as usize;
         let mut parts: Vec<Part> = vec![];
-        let shared_token = r.range(0, 5);
+        let shared_token = if r.chance(1, 3) { 0 } else { r.range(0, 5) };
+        // mostly one family (so that the masks decide), sometimes legacy and extended parts mixed
+        let family = r.below(10);
         for _ in 0..np {
-            let k = *r.pick(&[K664, KEx, KMore, KMore]);
+            let k = if family < 5 { K664 } else if family < 9 { *r.pick(&[KEx, KMore, KMore]) } else { *r.pick(&[K664, KEx, KMore, KMore]) };
             let ncl = r.below(4) as usize;
             let mut h = plain_hdr(r.range(0, 6), 64);
             h.np = I::V(0);
@@ -1478,6 +1482,12 @@ fn main() {
                 2 => Op::S,
                 _ => Op::M(r.below(np as u64) as usize),
             });
+        }
+        if r.chance(1, 6) {
+            // after take_info the state is the default info with a full mask
+            ops.push(Op::T);
+            ops.push(Op::S);
+            ops.push(Op::M(r.below(np as u64) as usize));
         }
         let ptxt = parts_txt(&parts);
         do_merge(&mut o, &parts, &ptxt, &ops, &format!("hist-{}", ops.iter().map(|x| match x { Op::M(_) => 'm', Op::G => 'g', Op::T => 't', Op::S => 's' }).collect::<String>().chars().take(4).collect::<String>()));
